@@ -4,10 +4,10 @@ set -e
 cd "$(dirname "$0")"
 export CARGO_NET_OFFLINE=true
 cp /repo/Cargo.lock Cargo.lock 2>/dev/null || true
-cargo build --offline -q --target-dir target/plain 2>&1 | grep -v "^warning" | head -20 || true
-cargo build --offline -q --release --target-dir target/plain 2>&1 | grep -v "^warning" | head -20 || true
-cargo build --offline -q --features macro_sep --target-dir target/sep 2>&1 | grep -v "^warning" | head -20 || true
-cargo build --offline -q --release --features macro_sep --target-dir target/sep 2>&1 | grep -v "^warning" | head -20 || true
+cargo build --offline -q --target-dir target/plain 2>&1 | grep -E "^error" -A8 | head -40 || true
+cargo build --offline -q --release --target-dir target/plain 2>&1 | grep -E "^error" -A8 | head -40 || true
+cargo build --offline -q --features macro_sep --target-dir target/sep 2>&1 | grep -E "^error" -A8 | head -40 || true
+cargo build --offline -q --release --features macro_sep --target-dir target/sep 2>&1 | grep -E "^error" -A8 | head -40 || true
 for b in target/plain/debug target/plain/release target/sep/debug target/sep/release; do
   test -x $b/verif-replay || { echo "missing $b/verif-replay"; exit 1; }
 done
